@@ -12,12 +12,22 @@ if ! git apply "$d/patch.diff"; then echo "RESULT patch-does-not-apply"; exit 1;
 if ! cmake --build _b -j8 >/dev/null 2>&1; then echo "RESULT build-fails"; git checkout -q -- .; exit 1; fi
 t=$(ctest --test-dir _b -j4 --timeout 900 2>&1 | grep "tests passed")
 echo "tests with change: $t"
-demo=$(ls "$d"/demo*.cpp | head -1)
-g++ -std=c++17 "$demo" -I"$wt/include" -I"$wt/_b/include" -I"$wt/_b" -I"$wt/ext/sqlite_modern_cpp" -I"$wt/src" -L"$wt/_b" -ldjinterop -lsqlite3 -lz -Wl,-rpath,"$wt/_b" -o "$d/demo.bin" 2>"$d/demo_build.log" || { echo "RESULT demo-does-not-compile"; git checkout -q -- .; exit 1; }
+build_demo() {
+  if [ -f "$d/build_demo.sh" ]; then
+    # the author's own build line (typically compiles the library sources into the demo with sanitizers)
+    ( cd "$d" && rm -f demo demo.bin && sh ./build_demo.sh "$wt" >demo_build.log 2>&1; [ -f demo ] && mv demo demo.bin; [ -f demo.bin ] )
+  else
+    demo=$(ls "$d"/demo*.cpp | head -1)
+    g++ -std=c++17 "$demo" -I"$wt/include" -I"$wt/_b/include" -I"$wt/_b" -I"$wt/ext/sqlite_modern_cpp" -I"$wt/src" -L"$wt/_b" -ldjinterop -lsqlite3 -lz -Wl,-rpath,"$wt/_b" -o "$d/demo.bin" 2>"$d/demo_build.log"
+  fi
+}
+build_demo || { echo "RESULT demo-does-not-compile"; git checkout -q -- .; exit 1; }
 ( cd "$d" && timeout 300 ./demo.bin >demo_with.txt 2>&1 ); rc1=$?
 echo "demo with change: exit $rc1"
 git checkout -q -- .
 cmake --build _b -j8 >/dev/null 2>&1
+# a demo that compiles library sources in must be rebuilt against the reverted tree
+[ -f "$d/build_demo.sh" ] && { build_demo || { echo "RESULT demo-does-not-compile-clean"; exit 1; }; }
 ( cd "$d" && timeout 300 ./demo.bin >demo_without.txt 2>&1 ); rc2=$?
 echo "demo without change: exit $rc2"
 case "$t" in "100% tests passed"*) tp=1;; *) tp=0;; esac
